@@ -294,6 +294,10 @@ var extTable = map[string]extEffect{
 	"sort.Sort":                                             {writesArgs: []int{0}, shallow: true, note: "permutes the elements of the slice (through Swap); element contents are not written"},
 	"sort.Strings":                                          {writesArgs: []int{0}, shallow: true},
 	"(*sync.Once).Do":                                       {note: "callee handled separately"},
+	"(*log.Logger).SetOutput":                               {writesArgs: []int{0}, note: "reconfigures the logger it is called on"},
+	"(*log.Logger).SetFlags":                                {writesArgs: []int{0}, note: "reconfigures the logger it is called on"},
+	"(*log.Logger).SetPrefix":                               {writesArgs: []int{0}, note: "reconfigures the logger it is called on"},
+	"log.SetOutput":                                         {note: "standard logger of the log package: not package state of spec"},
 	"(*bytes.Buffer).Write":                                 {writesArgs: []int{0}},
 	"(*bytes.Buffer).WriteString":                           {writesArgs: []int{0}},
 	"(*bytes.Buffer).WriteByte":                             {writesArgs: []int{0}},
